@@ -54,7 +54,7 @@ func scenarioUnit(s *Scenario, opt exploreOpts, oracles ...Oracle) *Unit {
 		}
 		cfg := vrt.ExploreCfg{
 			Exec:     vrt.Config{Stalls: opt.stalls, StallMenu: len(opt.stalls) > 0, MapMenu: opt.mapMenu || opt.menu[vrt.KMap], Race: opt.race || raceMode, PointHook: hook},
-			Bound:    opt.bound,
+			Bound:    capBound(opt.bound),
 			Menu:     opt.menu,
 			Deadline: deadline,
 			MaxExecs: opt.maxExecs,
